@@ -10,6 +10,9 @@ import translate_numpy_utils
 import translate_toggle
 import translate_user_actions
 import translate_utils
+import translate_annotators
+import translate_export
+import translate_import
 
 ok_all = True
 print("history", translate_history.regenerate())
@@ -19,7 +22,8 @@ ok_all &= bool(translate_user_actions.LAST.get("ok"))
 for name, f in [("name_mapping", translate_name_mapping.regenerate), ("utils", translate_utils.regenerate),
                 ("labels", translate_numpy_utils.regenerate_labels), ("relabel", translate_numpy_utils.regenerate_relabel),
                 ("toggle", translate_toggle.regenerate), ("candgraph", translate_candgraph.regenerate),
-                ("core", translate_core.regenerate)]:
+                ("core", translate_core.regenerate), ("annotators", translate_annotators.regenerate),
+                ("export", translate_export.regenerate), ("import", translate_import.regenerate)]:
     r = f()
     print(name, r)
     ok_all &= bool(r[0])
